@@ -110,9 +110,9 @@ fn clip_outcode_is_union_of_planes() {
     assert!(v.pos.0[0].to_bits() == p.0[0].to_bits() && v.pos.0[3].to_bits() == p.0[3].to_bits() && v.attrib.to_bits() == a.to_bits());
 }
 
-// @ob props=C03,C02 tier=thorough kind=P cfg=core-std timeout=3600
+// @ob props=C03,C02 tier=quick kind=P cfg=core-std timeout=2400
 // @fn view_frustum::outcode ; ClipVert::new ; ClipPlane::is_inside
-// @clause type invariant of ClipVert established by its constructor (monolithic version): for every finite point, bit k of the outcode is set iff the k-th frustum inequality is violated (outcode 0 iff -w <= x,y,z <= w); position and attribute are stored unchanged; is_inside(plane k) iff bit k is clear
+// @clause type invariant of ClipVert established by its constructor (monolithic version; the same postcondition is the in-place contract of view_frustum::outcode, whose proof_for_contract form costs 10 min of symbolic execution and runs in the thorough tier): for every finite point, bit k of the outcode is set iff the k-th frustum inequality is violated (outcode 0 iff -w <= x,y,z <= w); position and attribute are stored unchanged; is_inside(plane k) iff bit k is clear
 #[cfg(not(verif_skip_clip_outcode_matches_planes))]
 #[kani::proof]
 #[kani::unwind(8)]
@@ -134,7 +134,7 @@ fn clip_outcode_matches_planes() {
     assert!(v.pos.0 == p.0 && v.attrib.to_bits() == a.to_bits());
 }
 
-// @ob props=C03,C02 tier=quick kind=P cfg=core-std timeout=2400
+// @ob props=C03,C02 tier=thorough kind=P cfg=core-std timeout=3600
 // @fn view_frustum::outcode
 // @clause contract of view_frustum::outcode (in place): the result is < 64 and, for every finite point, bit k is set iff the k-th frustum inequality is violated
 #[cfg(not(verif_skip_clip_outcode_contract))]
